@@ -1,14 +1,16 @@
 #!/bin/bash
+# usage: seedsweep.sh [glob]   (default: all seeds)
 # Runs every seeded change against the quick check of its property (on scratch worktrees of /repo HEAD)
-# and prints one line per seed: CAUGHT (rc=1), MISSED (rc=0), NOAPPLY, or HARNESS (rc=2).
+# and prints one line per seed: CAUGHT (rc=1), MISSED (rc=0), NOAPPLY (rc=3), or HARNESS (rc=2).
 cd /verif
-for d in seeded/C*-[ab]; do
+for d in seeded/${1:-C*-[a-d]}; do
   id=$(basename $d); prop=${id%-*}
   out=$(tools/trymutant.sh $d/patch.diff $prop 2>&1)
+  if echo "$out" | grep -q "PATCH DOES NOT APPLY"; then echo "$id NOAPPLY"; continue; fi
   rc=$(echo "$out" | grep -o 'rc=[0-9]*' | tail -1)
   sigs=$(echo "$out" | grep -o 'sig=[^ ]*' | sort -u | head -3 | tr '\n' ' ')
   case "$rc" in
-    rc=1) st=CAUGHT;; rc=0) st=MISSED;; rc=3) st=NOAPPLY;; *) st="HARNESS($rc)";;
+    rc=1) st=CAUGHT;; rc=0) st=MISSED;; *) st="HARNESS($rc)";;
   esac
   echo "$id $st $sigs"
 done
